@@ -37,7 +37,7 @@ theorem reprUses_ok (c : Case) (u : Entry) (h : u ∈ reprUses c) : entryOk c u 
 theorem eqUses_ok (c : Case) (u : Entry) (h : u ∈ eqUses c) : entryOk c u = true := by
   simp only [eqUses, List.mem_cons, List.mem_map, List.mem_filter] at h
   rcases h with h | ⟨f, ⟨hf, hc⟩, h⟩
-  · subst h; simp [eqNotImplemented, Generated.c17EqFixed, entryOk, use, usedBuiltins]
+  · subst h; exact entryOk_fx c _ _ (by decide)
   · subst h
     have : (c.fields.any fun g => g.name == f.name && g.eq && g.eqKey && eqKeyName f.name == eqKeyName g.name) = true :=
       List.any_eq_true.2 ⟨f, hf, by simpa using hc⟩
